@@ -865,15 +865,34 @@ func ruleOptionalDeref(c *Ctx) {
 							idx = i
 						}
 					}
-					for _, site := range (cgView{c}).callersOf(f) {
-						if idx < 0 || idx >= len(site.Common().Args) {
-							continue
+					// the tree may be handed down several levels (analyze -> withIncludedDeclarations -> a method of the
+					// tree itself): every level that passes it on without a nil test is followed up to the loader call
+					var upward func(fn *ssa.Function, idx, depth int) string
+					upward = func(fn *ssa.Function, idx, depth int) string {
+						for _, site := range (cgView{c}).callersOf(fn) {
+							if idx < 0 || idx >= len(site.Common().Args) {
+								continue
+							}
+							a := site.Common().Args[idx]
+							if nilGuarded(site.Block(), a) {
+								continue
+							}
+							if isLoaderTree(a) {
+								return "the tree " + funcName(site.Parent()) + " got from the loader and passes on without a nil test"
+							}
+							if prm, ok := a.(*ssa.Parameter); ok && depth < 3 {
+								for i, q := range site.Parent().Params {
+									if q == prm {
+										if w := upward(site.Parent(), i, depth+1); w != "" {
+											return w
+										}
+									}
+								}
+							}
 						}
-						a := site.Common().Args[idx]
-						if isLoaderTree(a) && !nilGuarded(site.Block(), a) {
-							bad = "the tree " + funcName(site.Parent()) + " got from the loader and passes on without a nil test"
-						}
+						return ""
 					}
+					bad = upward(f, idx, 0)
 				default:
 					continue
 				}
